@@ -137,9 +137,11 @@ pub fn run(ctx: &Ctx) -> Report {
         .par_iter()
         .enumerate()
         .fold(Acc::default, |mut acc, (i, l)| {
-            for c in [0u8, 1] {
+            // short-term credentials, and one of the four long-term credentials of the alphabet by list
+            // index (neighbouring pool threads seal under different long-term users at the same time)
+            for c in [0u8, [1u8, 4, 5, 6][i % 4]] {
                 for s in sealings(c) {
-                    if c == 1 && s.is_empty() {
+                    if c != 0 && s.is_empty() {
                         continue;
                     }
                     let mut ops = l.clone();
